@@ -198,7 +198,8 @@ def gen_options(repo, outdir):
         if ename not in ('iarf_e', 'line_end_e', 'token_pos_e'):
             continue
         for en in re.findall(r'^\s*(\w+)\s*(?:=[^,]*)?,?\s*$', body, re.M):
-            cpp.append('static const %s %s_%s = %s::%s;' % (ename, prefix, en, ename, en))
+            # macros, not objects: the front end does not accept a static const enum object as a case label
+            cpp.append('#define %s_%s %s::%s' % (prefix, en, ename, en))
     cpp += ns + ['}']
     cpp.append('// the property\'s "in-range configuration" quantifier: every option value is any value of its documented range')
     cpp.append('static inline void verif_havoc_options() {')
